@@ -18,7 +18,7 @@ INSN_TRUSTED = ['iced-x86 decoder: bridged natively (witness bytes -> fields -> 
 INSN_BOUNDS = ("one handler call (mnemonic_<m>) per implemented form x shape from a fully symbolic machine: all 16 GPRs + RIP (2^64 each), "
                "rflags (bits 0..=21 arbitrary; the reserved-zero bits 22..=63 are zero), fs, gs, 2 XMM registers symbolic (others distinct constants) where the form names one, immediates / "
                "displacement / branch target symbolic over everything the encoding can carry; memory forms: one area D of 32 symbolic bytes at "
-               "0x40000000 with an arbitrary 3-bit permission mask, address = symbolic base register + symbolic disp8 (inside, straddling, outside D). "
+               "0x40000000 with an arbitrary permission mask out of the 6 CPU-realisable ones (no write-only masks), address = symbolic base register + symbolic disp8 (inside, straddling, outside D). "
                "Shapes: quick = mod=11 register shape (8- and 64-bit widths of each operand pattern) + [base+disp8] shape (widest width); thorough "
                "adds all widths, dest==src alias, AH..BH, REX registers, SPL..DIL, [r13+disp8]. Register numbers rotate with VERIF_SEED. unwind 90")
 INSN_OUTSIDE = ("encodings the witness generator does not produce (other ModRM/SIB addressing shapes are C05's subject; prefixes such as LOCK/REP); "
@@ -92,9 +92,9 @@ PROPS = {
     "C09": {
         "bounds": "API level: arbitrary layout of two disjoint areas (8 and 5 bytes, arbitrary starts and contents) with all 8x8 permission "
                   "masks; one read (any address, any length), write (1..=8 bytes, any address) or fetch (any address); mem_prot followed by "
-                  "read/write/fetch; constructor Axecutor::new with 4 arbitrary code bytes at any start. Instruction level: every memory-"
+                  "read/write/fetch. Instruction level: every memory-"
                   "touching instruction class once with an arbitrary mask on its operand area (insn harnesses tagged C09)",
-        "outside": "ELF segment flags (C15); iced's decoder after the fetch (decode_at = fetch + Decoder)",
+        "outside": "Axecutor::new itself (does not finish: 20 min / 40 GB), its mem_prot(R|X) step is covered; ELF segment flags (C15); iced's decoder after the fetch (decode_at = fetch + Decoder)",
         "trusted": ["stub: collect_mem_error_hints -> fixed error (message text only)"],
         "assumptions": ["area list invariant M (C10)"],
     },
